@@ -22,7 +22,7 @@ VIC_SNIPPETS = ['move "w"', 'cut "e"', 'cut name="k" "e"', "next", 'echo $line $
 
 # inputs that crashed or hung the pinned tree (each repaired by a fix: commit), plus the CRLF probe of the known finding
 CORPUS = [
-    (["include \"nonexistent.vic\""], ""), (["let n = -3\necho $n"], "a\n"), (["push $buffers \"b\"\nbuf switch 1\npop $buffers\necho $line\nmove \"w\""], "a b\n"), (["let d = 1 / 0"], ""), (["let d = 7 % 0"], ""),
+    (["echo \"hi\"\ncut \"e\"", "in1.txt", "in2.txt"], ""), (["include \"nonexistent.vic\""], ""), (["let n = -3\necho $n"], "a\n"), (["push $buffers \"b\"\nbuf switch 1\npop $buffers\necho $line\nmove \"w\""], "a b\n"), (["let d = 1 / 0"], ""), (["let d = 7 % 0"], ""),
     (["let x = 9223372036854775807\nx += 1"], ""), (["let x = 2 ** 70"], ""), (["opts { linewise }\necho $line $col"], "\nc"),
     (["opts { linewise }\necho \"x\""], "a\nc\nd\n"), (["-c", "<c-v>$"], "日本語 テキスト here\n混ぜる mixed 文字\n"), (["-c", "gg<c-v>iw"], ""),
     (["-c", "<c-v>jiw"], "foo bar\nbaz qux\n"), (["--cut", ":5,2"], "\nb\nc\nd"), (["-m", ":5,2d<CR>"], "a\nb\nc\nd\n"), (["-m", "rè"], "é\n"),
@@ -161,6 +161,10 @@ def run(chk, binary):
     cwd = os.path.join(TMP, f"c10_{os.getpid()}")     # commands such as :w may create files: keep them in a scratch directory
     shutil.rmtree(cwd, ignore_errors=True)
     os.makedirs(cwd)
+    # a few files for scripts and flags that name files (several files = the threaded file drivers)
+    for nm, content in (("in1.txt", "alpha beta\ngamma\n"), ("in2.txt", "héllo wörld\n"), ("in3.txt", "x\n\ny")):
+        with open(os.path.join(cwd, nm), "w", encoding="utf-8") as f:
+            f.write(content)
     for i in range(n + len(CORPUS)):
         if i < len(CORPUS):
             argv, text = CORPUS[i]
@@ -173,6 +177,10 @@ def run(chk, binary):
             if argv is None:
                 argv = [gen_vic(rng)]
                 kind = "vic"
+                if rng.random() < 0.2:
+                    argv += rng.sample(["in1.txt", "in2.txt", "in3.txt"], rng.choice([1, 2, 3]))      # the script runs over files
+            elif rng.random() < 0.06:
+                argv += rng.sample(["in1.txt", "in2.txt", "in3.txt"], rng.choice([2, 3]))
         if any(a in ("-h", "--help", "--version") for a in argv) or not argv:
             continue
         if any("\x00" in a for a in argv):
